@@ -604,7 +604,7 @@ func encRules(c *Ctx) {
 					a := core.Unparen(x.Args[0])
 					e.dom(fi, a)
 					raw := e.rawNameIn(fi, a, 0)
-					k := fi.QName() + "/MustCreateRef(" + exprStr(a) + ")"
+					k := fi.QName() + "/MustCreateRef"
 					// armed for the inline-schema namer only: KeepNames belongs to the quantifier for
 					// single-document bundles, whose new definitions are all created there; the import
 					// path (multi-document) is listed as an observation
